@@ -17,6 +17,7 @@ let show_ev = function
   | EvFin c -> Some ("fin:" ^ ni c)
   | EvConnClose s -> Some ("cclose:" ^ ni s)
   | EvHack _ -> None
+  | EvWant | EvStopReq | EvCycle -> None
 let kst_code = function KDisconnected -> 0 | KConnecting -> 1 | KConnected -> 2
 let cst_code = function CDisconnected -> 0 | CConnecting -> 1 | CConnected -> 2 | CDisconnecting -> 3
 let join l = if l = [] then "-" else String.concat "," l
@@ -33,10 +34,95 @@ let show status evs (s: st) =
     Printf.sprintf "%s/%s/%s" (b2s s.c_connect) (b2s s.c_retry) (match s.connection with None -> "-" | Some c -> ni c) in
   let cs = List.map (fun o -> if not o.calive then "x" else
     Printf.sprintf "%d/%s/%s/%s" (cst_code o.cst) (b2s o.creg) (b2s o.cfin) (if int_of_nat o.cuser > 0 then "1" else "0")) s.conns in
-  Printf.printf "%s ev=%s arm=%s k=%s tm=%s pend=%d socks=%s cl=%s cs=%s\n" status (join es) (join arms) k
+  Printf.printf "%s t=%d ev=%s arm=%s k=%s tm=%s pend=%d socks=%s cl=%s cs=%s\n" status now (join es) (join arms) k
     (join (List.map string_of_int tm)) (List.length s.pending) (join socks) cl (join cs);
   flush stdout
-let () =
+(* ---- enumeration mode: `modelrun enum <depth> [text|contract]`
+   breadth-first over the op alphabet from `init`, states identified up to a shift of the clock; prints
+   one case per (state reached within depth-1 ops, next op that is neither rejected nor outside the
+   chosen contract): its shortest history followed by that op.  Used by lib/props/C12.py as generator. *)
+let alphabet = [ "CONNECT", Connect; "DISCONNECT", Disconnect; "STOP", Stop; "RETRY", EnableRetry; "DESTROY", Destroy;
+  "XCF", XConnectFlags; "XCE", XConnectEnq; "XSF", XStopFlags; "XSE", XStopEnq; "XDF", XDisconnectFlag; "XDR", XDisconnectRest;
+  "XYR", XDestroyRead; "XYD", XDestroyRest;
+  "CR ECONNREFUSED", ConnectResult (z_of_int 111); "CR EACCES", ConnectResult (z_of_int 13); "CR 0", ConnectResult (z_of_int 0);
+  "EVW 0 0", EvWritable (z_of_int 0, false); "EVW ECONNREFUSED 0", EvWritable (z_of_int 111, false); "EVW 0 1", EvWritable (z_of_int 0, true);
+  "EVE", EvError; "TF", TimerFire; "RUN", RunPending; "RUN1", RunOne; "DOWN", Down; "HOLD", UserHold; "REL", UserRelease ]
+let norm (s: st) = { s with now = z_of_int 0; timers = List.map (fun (d, k) -> (z_of_int (int_of_z d - int_of_z s.now), k)) s.timers }
+let enumerate depth use_text =
+  let ok s o = if use_text then text_contract s o else contract s o in
+  let seen = Hashtbl.create 100000 in
+  Hashtbl.replace seen (norm init) ();
+  let frontier = ref [ (init, []) ] in
+  let n = ref 0 in
+  for d = 1 to depth do
+    let next = ref [] in
+    List.iter (fun (s, path) ->
+      List.iter (fun (name, o) ->
+        if ok s o then
+          match step s o with
+          | Rejected -> ()
+          | r ->
+            incr n;
+            Printf.printf "case e%d\n%s\nend\n" !n (String.concat "\n" (List.rev (name :: path)));
+            (match r with
+             | Ok (s', _) ->
+               let k = norm s' in
+               if not (Hashtbl.mem seen k) then begin Hashtbl.replace seen k (); next := (s', name :: path) :: !next end
+             | _ -> ())) alphabet) !frontier;
+    frontier := List.rev !next
+  done
+(* ---- random mode: `modelrun random <seed> <count> <maxlen>`: histories drawn op by op, an op is kept when the
+   model neither rejects it nor the chosen contract excludes it (6 of 10 cases: the theorems' contract, the
+   others: what the property text allows); profiles bias the kernel and the user *)
+let errs = [| 0; 115; 4; 106; 11; 98; 99; 111; 101; 13; 1; 97; 114; 9; 14; 88; 110; 113; 104; 105 |]
+let err_name e = if e = 0 then "0" else string_of_int e
+let pick profile =
+  let w = match profile with
+    | 1 -> (* kernel refuses: long back-off chains up to the cap *)
+      [ 6, `CRr; 1, `CRany; 8, `TF; 5, `EVWe; 4, `EVE; 1, `EVWs; 2, `CONNECT; 1, `STOP; 3, `RUN; 1, `RETRY; 1, `EVW0 ]
+    | 2 -> (* churn: connections come up and go down, retry mostly on *)
+      [ 4, `RETRY; 5, `CONNECT; 8, `EVW0; 8, `RUN; 6, `DOWN; 2, `DISCONNECT; 2, `STOP; 2, `TF; 1, `CRr; 1, `EVWe; 1, `HOLD; 1, `REL; 1, `RUN1 ]
+    | 3 -> (* destruction at every point, user references *)
+      [ 4, `CONNECT; 5, `EVW0; 5, `RUN; 3, `DOWN; 4, `DESTROY; 3, `HOLD; 3, `REL; 2, `TF; 2, `CRr; 1, `EVE; 1, `STOP; 1, `DISCONNECT; 1, `RETRY; 2, `RUN1 ]
+    | 4 -> (* foreign threads *)
+      [ 3, `XCF; 4, `XCE; 3, `XSF; 4, `XSE; 3, `XDF; 4, `XDR; 2, `XYR; 3, `XYD; 4, `EVW0; 5, `RUN; 3, `RUN1; 2, `DOWN; 2, `TF; 2, `CRr; 1, `RETRY; 1, `CONNECT; 1, `EVWe ]
+    | _ ->
+      [ 3, `CONNECT; 2, `DISCONNECT; 2, `STOP; 1, `RETRY; 1, `DESTROY; 1, `XCF; 1, `XCE; 1, `XSF; 1, `XSE; 1, `XDF; 1, `XDR; 1, `XYR; 1, `XYD;
+        2, `CRr; 1, `CRany; 3, `EVW0; 2, `EVWe; 1, `EVWs; 1, `EVE; 3, `TF; 4, `RUN; 1, `RUN1; 2, `DOWN; 1, `HOLD; 1, `REL ] in
+  let tot = List.fold_left (fun a (x, _) -> a + x) 0 w in
+  let r = ref (Random.int tot) in
+  let k = ref (snd (List.hd w)) in
+  (try List.iter (fun (x, t) -> if !r < x then begin k := t; raise Exit end else r := !r - x) w with Exit -> ());
+  match !k with
+  | `CONNECT -> "CONNECT", Connect | `DISCONNECT -> "DISCONNECT", Disconnect | `STOP -> "STOP", Stop | `RETRY -> "RETRY", EnableRetry
+  | `DESTROY -> "DESTROY", Destroy | `XCF -> "XCF", XConnectFlags | `XCE -> "XCE", XConnectEnq | `XSF -> "XSF", XStopFlags
+  | `XSE -> "XSE", XStopEnq | `XDF -> "XDF", XDisconnectFlag | `XDR -> "XDR", XDisconnectRest | `XYR -> "XYR", XDestroyRead
+  | `XYD -> "XYD", XDestroyRest | `EVE -> "EVE", EvError | `TF -> "TF", TimerFire | `RUN -> "RUN", RunPending | `RUN1 -> "RUN1", RunOne
+  | `DOWN -> "DOWN", Down | `HOLD -> "HOLD", UserHold | `REL -> "REL", UserRelease
+  | `EVW0 -> "EVW 0 0", EvWritable (z_of_int 0, false)
+  | `EVWs -> "EVW 0 1", EvWritable (z_of_int 0, true)
+  | `EVWe -> let e = errs.(1 + Random.int (Array.length errs - 1)) in "EVW " ^ err_name e ^ " 0", EvWritable (z_of_int e, false)
+  | `CRr -> let e = [| 11; 98; 99; 111; 101 |].(Random.int 5) in "CR " ^ err_name e, ConnectResult (z_of_int e)
+  | `CRany -> let e = errs.(Random.int (Array.length errs)) in "CR " ^ err_name e, ConnectResult (z_of_int e)
+let random_cases seed count maxlen =
+  Random.init seed;
+  for ci = 1 to count do
+    let profile = Random.int 6 in
+    let strict = Random.int 10 < 6 in
+    let len = 1 + Random.int maxlen in
+    let s = ref init and ops = ref [] and dead = ref false and n = ref 0 and tries = ref 0 in
+    while !n < len && !tries < 40 * len && not !dead do
+      incr tries;
+      let (name, o) = pick profile in
+      if (if strict then contract !s o else text_contract !s o) then
+        match step !s o with
+        | Rejected -> ()
+        | Fault -> ops := name :: !ops; dead := true
+        | Ok (s', _) -> s := s'; ops := name :: !ops; incr n
+    done;
+    Printf.printf "case r%d_%d\n%s\nend\n" seed ci (String.concat "\n" (List.rev !ops))
+  done
+let run_cases () =
   let s = ref init in
   let dead = ref false in
   (try while true do
@@ -62,3 +148,9 @@ let () =
        | Rejected -> show "rejected" [] !s
        | Fault -> dead := true; print_string "FAULT\n"; flush stdout)
   done with End_of_file -> ())
+let () =
+  if Array.length Sys.argv >= 3 && Sys.argv.(1) = "enum" then
+    enumerate (int_of_string Sys.argv.(2)) (not (Array.length Sys.argv >= 4 && Sys.argv.(3) = "contract"))
+  else if Array.length Sys.argv >= 5 && Sys.argv.(1) = "random" then
+    random_cases (int_of_string Sys.argv.(2)) (int_of_string Sys.argv.(3)) (int_of_string Sys.argv.(4))
+  else run_cases ()
